@@ -50,7 +50,11 @@ type Case struct {
 	// Deflate > 0: the chunks are deflate-compressed at this level. The pipeline message the writer stores carries version
 	// byte 2 over a version 1 layout (C08's open finding); the harness sets that one byte to 1 so that the reader can be
 	// asked about compressed chunks at all.
-	Deflate   int      `json:"deflate,omitempty"`
+	Deflate int `json:"deflate,omitempty"`
+	// Deep (2 or 3): the single-leaf chunk index the writer produced is re-arranged by the harness into a B-tree of that many
+	// levels with PerNode entries per node (see deepen.go); what the dataset holds is unchanged
+	Deep      int      `json:"deep,omitempty"`
+	PerNode   int      `json:"per_node,omitempty"`
 	Twin      bool     `json:"twin,omitempty"`
 	TwinChunk []uint64 `json:"twin_chunk,omitempty"`
 }
@@ -241,7 +245,11 @@ func gen(t *rapid.T) Case {
 	if c.Corpus == "" && c.Chunk != nil && c.WDims == nil && rapid.IntRange(0, 2).Draw(t, "deflate") == 0 {
 		c.Deflate = rapid.IntRange(1, 9).Draw(t, "level")
 	}
-	if c.Corpus == "" && c.WDims == nil && c.Deflate == 0 && rapid.IntRange(0, 3).Draw(t, "twin") == 0 {
+	if c.Corpus == "" && c.Chunk != nil && c.Deflate == 0 && rapid.IntRange(0, 2).Draw(t, "deep") == 0 {
+		c.Deep = rapid.SampledFrom([]int{2, 2, 3}).Draw(t, "levels")
+		c.PerNode = rapid.IntRange(1, 4).Draw(t, "perNode")
+	}
+	if c.Corpus == "" && c.WDims == nil && c.Deflate == 0 && c.Deep == 0 && rapid.IntRange(0, 3).Draw(t, "twin") == 0 {
 		c.Twin = true
 		if c.Chunk != nil && rapid.Bool().Draw(t, "twinOtherChunks") {
 			for _, e := range c.Dims {
@@ -369,6 +377,8 @@ func expected(full []float64, dims []uint64, s Sel) []float64 {
 
 func run(c Case) vt.Verdict {
 	var file, dpath string
+	deepened := false
+	var wantFull []uint64
 	if c.Corpus != "" {
 		parts := strings.SplitN(c.Corpus, "::", 2)
 		if len(parts) != 2 {
@@ -433,8 +443,23 @@ func run(c Case) vt.Verdict {
 				return vt.Bad("Resize %v -> %v (chunk %v, unlimited): %s%s", c.WDims, c.Dims, c.Chunk, st.Err, st.Broken)
 			}
 		}
+		if o := ex.M.Resolve(dpath); o != nil && o.Written && c.WDims == nil {
+			if w, ok := o.Spec.ExpectedRead(o.Raw); ok {
+				wantFull = w
+			}
+		}
 		if err := ex.Close(); err != nil {
 			return vt.Bad("Close: %v", err)
+		}
+		if c.Deep >= 2 && c.Deep <= 3 {
+			if img, err := os.ReadFile(file); err == nil {
+				if deep, derr := deepen(img, dpath, c.Deep, c.PerNode); derr == nil {
+					if err := os.WriteFile(file, deep, 0o644); err != nil {
+						return vt.Bad("write back: %v", err)
+					}
+					deepened = true
+				}
+			}
 		}
 		if c.Deflate > 0 {
 			img, err := os.ReadFile(file)
@@ -462,16 +487,24 @@ func run(c Case) vt.Verdict {
 	if c.Twin && c.Corpus == "" {
 		paths = []string{"/g/d", dpath, "/g/d"}
 	}
+	if deepened {
+		vt.Recorder(prop).Label("selection", fmt.Sprintf("chunk_index_of_%d_levels", c.Deep), 1)
+	}
 	for _, p := range paths {
-		if v := readAll(c, f, p); v.Kind != vt.Pass().Kind {
+		var want []uint64
+		if p == dpath {
+			want = wantFull
+		}
+		if v := readAll(c, f, p, want); v.Kind != vt.Pass().Kind {
 			return v
 		}
 	}
 	return vt.Pass()
 }
 
-// readAll reads every selection of the case from the dataset at dpath and compares with that dataset's full read.
-func readAll(c Case, f *hdf5.File, dpath string) vt.Verdict {
+// readAll reads every selection of the case from the dataset at dpath and compares with that dataset's full read (and the
+// full read with what was written, where the harness wrote the dataset).
+func readAll(c Case, f *hdf5.File, dpath string, wantFull []uint64) vt.Verdict {
 	var ds *hdf5.Dataset
 	f.Walk(func(p string, o hdf5.Object) {
 		if d, ok := o.(*hdf5.Dataset); ok && p == dpath && ds == nil {
@@ -498,6 +531,16 @@ func readAll(c Case, f *hdf5.File, dpath string) vt.Verdict {
 	}
 	if n != len(full) || len(dims) != len(c.Dims) {
 		return vt.Skipped("shape mismatch with the case")
+	}
+	if wantFull != nil {
+		if len(wantFull) != len(full) {
+			return vt.Bad("full Read() of %s returns %d values, %d were written (dims %v chunk %v, index levels %d)", dpath, len(full), len(wantFull), dims, c.Chunk, c.Deep)
+		}
+		for k := range full {
+			if math.Float64bits(full[k]) != wantFull[k] {
+				return vt.Bad("full Read() of %s: element %d = %v, written %v (dims %v chunk %v, index levels %d, %d per node)", dpath, k, full[k], math.Float64frombits(wantFull[k]), dims, c.Chunk, c.Deep, c.PerNode)
+			}
+		}
 	}
 	for i, s := range c.Sels {
 		var got, got2 interface{}
